@@ -968,7 +968,7 @@ class SiteAppender(_Generic):
         if v is not self.idx:
             raise Unsupported("generic loop appends something other than the loop index")
         cx = ctx()
-        self.sitelist.add(z3.And(*[c for c, _ in cx.pc[getattr(self, "_pc0", 0):]]) if cx.pc else z3.BoolVal(True))
+        self.sitelist.add(z3.And(*[e[0] for e in cx.pc[getattr(self, "_pc0", 0):]]) if cx.pc else z3.BoolVal(True))
 
 
 class SymRange(_Generic):
@@ -976,6 +976,13 @@ class SymRange(_Generic):
         self.a = a
     def __iter__(self):
         raise Unsupported("range() with symbolic bounds (needs an invariant)")
+    def __generic_for__(self, interp, st, env):
+        from .kernels import SymRangeIter
+        a = self.a
+        lo, hi, step = (0, a[0], 1) if len(a) == 1 else (a[0], a[1], a[2] if len(a) > 2 else 1)
+        if step != 1:
+            raise Unsupported("symbolic range with a step")
+        return SymRangeIter(lo, hi).__generic_for__(interp, st, env)
 
 
 class SymArange(_Generic):
